@@ -199,6 +199,26 @@ func opMapping(w *World, s *Step) (string, string) {
 			res.Err = err
 			return
 		}
+		// the caller edits ITS OWN Child SA proposal; the next one it asks for must be pristine
+		if s.SpiI&2 == 2 && len(cp.EncryptionAlgorithm) > 0 {
+			cp.EncryptionAlgorithm[0].AttributeValue ^= 0x180
+			cp.EncryptionAlgorithm[0].TransformID = 3
+			if len(cp.IntegrityAlgorithm) > 0 {
+				cp.IntegrityAlgorithm[0].TransformID = 5
+			}
+			cp.ExtendedSequenceNumbers[0].TransformID ^= 1
+		}
+		cp2, err := c.ToProposal()
+		if err != nil {
+			res.Err = err
+			return
+		}
+		note(cp2.EncryptionAlgorithm[0].TransformID)
+		note(cp2.EncryptionAlgorithm[0].AttributeValue)
+		note(cp2.ExtendedSequenceNumbers[0].TransformID)
+		if len(cp2.IntegrityAlgorithm) > 0 {
+			note(cp2.IntegrityAlgorithm[0].TransformID)
+		}
 		note(c2.EncrKInfo.GetKeyLength())
 		note(c2.IntegKInfo.GetKeyLength())
 		note(c2.EsnInfo.GetNeedESN())
